@@ -5,6 +5,7 @@ import (
 	"errors"
 	"fmt"
 	"github.com/scrapli/scrapligo/platform"
+	"math/rand/v2"
 	"os"
 	"regexp"
 	"runtime/debug"
@@ -149,6 +150,10 @@ type Session struct {
 	StopAfterErrors int `json:"stop_after_errors,omitempty"`
 	// Variant bookkeeping for enumerated faults
 	BaseEmitted int `json:"base_emitted,omitempty"`
+	// CutEnum: this base scenario is followed by its cut enumeration (one sub-run per read boundary
+	// position up to CutTo, the stream length its own run measured)
+	CutEnum bool `json:"cut_enum,omitempty"`
+	CutTo   int  `json:"cut_to,omitempty"`
 	// Holds is the sched-hold fault plan (C07): goroutines descheduled after a hook point.
 	Holds []HoldSpec `json:"holds,omitempty"`
 	State string     `json:"state,omitempty"` // C07: connection state at the time of Close
@@ -812,4 +817,44 @@ func (sr *SessionRun) Summary() string {
 	fmt.Fprintf(&sb, "resume at %v; transport: %d reads, %d writes, last byte at %v, faults %v\n", sr.ResumeT, len(sr.Tr.Reads), len(sr.Tr.Writes), sr.Tr.LastByteAt, sr.Tr.Faults())
 
 	return sb.String()
+}
+
+// pickCutEnum selects the base scenarios that are followed by their cut enumeration: one in `every`,
+// spread so that every worker (run index modulo the worker count) gets its share.
+func pickCutEnum(run, every int) bool {
+	return run >= 0 && (run*7+run/16)%every == 3
+}
+
+// noteCutBase records the stream length of a base run that is to be cut-enumerated.
+func (sc *Session) noteCutBase(env *Env, tr interface{ Emitted() int }) {
+	if sc.CutEnum {
+		sc.CutTo = tr.Emitted()
+	}
+	if len(sc.Net.CutAt) > 0 {
+		env.Fault("cut-enum", 1)
+	}
+}
+
+// expandSessionCuts is the cut enumeration of a session-based base scenario (see cutLists).
+func expandSessionCuts(base Scenario, res *Result, tier string, quickMax int) []Scenario {
+	b := base.(*Session)
+	if !b.CutEnum || b.CutTo <= 0 || len(res.Violations) > 0 || res.HarnessError != "" || res.Inconclusive != "" {
+		return nil
+	}
+	r := rand.New(rand.NewPCG(b.SchedSeed, 0xc075))
+	var out []Scenario
+	for _, cl := range cutLists(1, b.CutTo, tier, r, quickMax) {
+		v := *b
+		v.CutEnum = false
+		v.Ops = append([]OpSpec(nil), b.Ops...)
+		v.Net.SegMode, v.Net.CutAt, v.Net.LatMode = "cuts", cl, "zero"
+		if v.ReadSize < 8192 {
+			v.ReadSize = 8192 // a small read size would cut everywhere and hide the chosen cut
+		}
+		v.Class = b.Class + "/cut"
+		v.SchedSeed = r.Uint64()
+		out = append(out, &v)
+	}
+
+	return out
 }
